@@ -146,6 +146,11 @@ def call_builtin(run, name, args, kwargs, node, fr):
             return Val(args[0].ty, args[0].t)        # dict(d): a copy - containers are values here
         if not args and not kwargs:
             return Conc(("emptydict",))
+        if len(args) == 1 and not kwargs and isinstance(args[0], Conc) and args[0].obj == ("emptydict",):
+            return Conc(("emptydict",))
+        if len(args) == 1 and not kwargs and isinstance(args[0], Val) and isinstance(args[0].ty, TOpt) and isinstance(args[0].ty.inner, TDict):
+            v = run.coerce(args[0], args[0].ty.inner)
+            return Val(v.ty, v.t)
         raise err("dict() without declared type")
     if name in ("any", "all"):
         g = args[0]
@@ -422,13 +427,28 @@ def seq_method(run, s, attr, args, kwargs, node):
         i = run.coerce(args[0], TInt).t
         run.implicit_raise(z3.And(i >= -n, i < n), "IndexError", node, "pop index out of range")
         j = ops.norm_index(i, n)
-        return Val(ty.elem, t[j]), Val(ty, z3.Concat(z3.Extract(t, 0, j), z3.Extract(t, j + 1, n - j - 1)))
+        new = z3.Concat(z3.Extract(t, 0, j), z3.Extract(t, j + 1, n - j - 1))
+        if run.spec:
+            return Val(ty.elem, t[j]), Val(ty, new)
+        r = z3.FreshConst(ty.sort(), "seq_pop")
+        p = z3.FreshConst(z3.IntSort(), "p")
+        run.assume(z3.And(r == new, z3.Length(r) == n - 1))
+        run.assume(z3.ForAll([p], z3.Implies(z3.And(0 <= p, p < n - 1), r[p] == z3.If(p < j, t[p], t[p + 1]))))
+        return Val(ty.elem, t[j]), Val(ty, r)
     if attr == "insert":
         n = z3.Length(t)
         i = run.coerce(args[0], TInt).t
         v = run.coerce(args[1], ty.elem)
         j = z3.If(i < 0, z3.If(i + n < 0, 0, i + n), z3.If(i > n, n, i))
-        return NONE, Val(ty, z3.Concat(z3.Extract(t, 0, j), z3.Unit(v.t), z3.Extract(t, j, n - j)))
+        new = z3.Concat(z3.Extract(t, 0, j), z3.Unit(v.t), z3.Extract(t, j, n - j))
+        if run.spec:
+            return NONE, Val(ty, new)
+        # element-wise view of the insertion (consequence of the definition; spares concat / extract reasoning)
+        r = z3.FreshConst(ty.sort(), "seq_ins")
+        p = z3.FreshConst(z3.IntSort(), "p")
+        run.assume(z3.And(r == new, z3.Length(r) == n + 1, 0 <= j, j <= n))
+        run.assume(z3.ForAll([p], z3.Implies(z3.And(0 <= p, p <= n), r[p] == z3.If(p < j, t[p], z3.If(p == j, v.t, t[p - 1])))))
+        return NONE, Val(ty, r)
     if attr == "clear":
         return NONE, Val(ty, z3.Empty(ty.sort()))
     if attr == "copy":
